@@ -11,6 +11,7 @@ mod s_determ;
 mod s_engine;
 mod s_expr;
 mod s_limits;
+mod s_params;
 mod s_print;
 mod s_snapshot;
 mod s_symbols;
@@ -40,6 +41,7 @@ fn main() {
         "symbols" => s_symbols::run(&opts),
         "snapshot" => s_snapshot::run(&opts),
         "print" => s_print::run(&opts),
+        "params" => s_params::run(&opts),
         "parsetext" => s_print::parsetext(),
         other => {
             eprintln!("unknown stream {other}");
